@@ -1,6 +1,7 @@
 import Faithful.Lib.Request
 import Faithful.Lib.RequestProofs
 import Faithful.Generated.Derefs
+import Faithful.Generated.Consts
 /-!
 # Property C08 — no request can crash the server
 
@@ -371,6 +372,9 @@ theorem pinned_bca_panics : blockContainsAccountsPinned [⟨true, false, false, 
     .panic "nil pointer dereference: meta.GetLoadedAccounts()" := rfl
 
 /-! ### the tie to the source, regenerated on every run -/
+
+/-- the two constants of the model are the ones in the tree (`slottools.EpochLen`, `maxSlotsToStream`) -/
+theorem gen_consts_eq_model : Generated.epochLen = Req.epochLen ∧ Generated.maxSlotsToStream = Req.maxSlotsToStream := by decide
 
 /-- every pointer dereference, unchecked type assertion, `Must…` call, constant index / slice expression and
     request-sized `make` on a request-derived value in the anchored request-parsing functions and the gRPC
